@@ -778,7 +778,7 @@ def _types_walk(ty, q):
         return ("tuple", [_types_walk(t, q) for t in ty[1]])
     return ty
 
-def _qualify_unit(u, mod, known):
+def _qualify_unit(u, mod, known, rename=True):
     """rename the module-level names of unit `u` (module name `mod`, "" = main unit) to `mod.x`, its records / enums to
     `mod.R`; resolve `n.x`, `n.R(…)` for used modules n.  known: module name -> dict(recs, enums, names)"""
     import src_gen
@@ -824,6 +824,13 @@ def _qualify_unit(u, mod, known):
     fs = []; all_funcs(items, fs)
     for f in fs:
         fix_func_types(f)
+    if not rename:
+        # for the Lean elaboration (Model/SrcMod.lean): types and `n.x` are settled here, the unit's own module-level
+        # names are qualified THERE
+        recs = [(pre + n, [(x[0], _types_walk(x[1], qt)) + tuple(x[2:]) for x in fl]) for n, fl in u["recs"]]
+        enums = [(pre + n, [(it, v, None if fl is None else [(x[0], _types_walk(x[1], qt)) + tuple(x[2:]) for x in fl]) for it, v, fl in its])
+                 for n, its in u["enums"]]
+        return items, recs, enums, []
     # module-level binders, in order; an item is renamed with the binders BEFORE it in scope (plus its own group)
     out, bs = [], []
     def nu_for(k):
@@ -863,6 +870,11 @@ def link_units(main_unit, loader):
     for n in main_unit["uses"]:
         load(n, [])
     known = {n: dict(recs={r for r, _ in u["recs"]}, enums={e for e, _ in u["enums"]}) for n, u in units.items()}
+    import copy
+    raw = []      # the same units NOT linked: main first, then the used ones in load order (the Lean side orders them itself)
+    for n, u in [("", main_unit)] + [(n, units[n]) for n in order]:
+        its0, rs0, es0, _ = _qualify_unit(copy.deepcopy(u), n, known, rename=False)
+        raw.append(dict(name=n, uses=list(u["uses"]), recs=rs0, enums=es0, items=its0))
     items, recs, enums = [], [], []
     for n in order:
         its, rs, es, _ = _qualify_unit(units[n], n, known)
@@ -890,7 +902,10 @@ def link_units(main_unit, loader):
                 if isinstance(x, (list, dict)):
                     renum(x)
     renum(wrapper)
-    return dict(recs=recs, enums=enums, funcs=[wrapper], source_override=True, modules=order)
+    counter[0] = 1
+    for u in raw[1:] + raw[:1]:          # the same numbering: used units in load order, then the main unit
+        renum(u["items"])
+    return dict(recs=recs, enums=enums, funcs=[wrapper], source_override=True, modules=order, units=raw)
 
 # ------------------------------------------------------------------ s-expression printer
 
@@ -1195,6 +1210,25 @@ def mark_dim_uses(prog):
     memo = {}
     q["funcs"] = [_dm_func(top, f, memo) for f in prog["funcs"]]
     return q
+
+def units_sexpr(prog):
+    """a linked program (parse_program with a loader) as its UNLINKED units, for `Never.Src.Mod.elaborate`"""
+    us = []
+    for u in prog["units"]:
+        seq = _dm_expr([], ["seq", u["items"] + [["e", ["int", 0]]]], {})
+        items = expr_sx(seq, prog)[1:-1]
+        recs = [["rec", n] + [["f", fld[0] if fld[0] else "-", coarse(fld[1], prog)] for fld in fs] for n, fs in u["recs"]]
+        enums = []
+        for n, its in u["enums"]:
+            l = []
+            for it, val, fields in its:
+                if fields is None:
+                    l.append(["item", it, val])
+                else:
+                    l.append(["item", it, val, ["payload"]] + [["f", fld[0] if fld[0] else "-", coarse(fld[1], prog)] for fld in fields])
+            enums.append(["enum", n] + l)
+        us.append(["unit", u["name"] if u["name"] else "-", ["uses"] + u["uses"], ["recs"] + recs, ["enums"] + enums, ["items"] + items])
+    return sx(["units"] + us)
 
 def prog_sexpr(prog):
     prog = mark_dim_uses(prog)
